@@ -19,7 +19,7 @@ from .common import make_rodded, set_int_params, set_temps, make_unrodded, patch
 from pvc import core, normal
 from pvc.core import Sym
 
-MODULES = common.RR_MODULES + common.UR_MODULES
+MODULES = common.RR_MODULES + common.UR_MODULES + ['dassh.core']
 PROPERTY = 'C04'
 FUNCTIONS = [
     'dassh.region_rodded:_calculate_int_dz', 'dassh.region_rodded:_calculate_byp_dz',
@@ -31,8 +31,14 @@ FUNCTIONS = [
     'dassh.region_rodded:RoddedRegion._calc_coolant_byp_temp_stagnant',
     'dassh.region_unrodded:calculate_min_dz', 'dassh.region_unrodded:SingleNodeHomogeneous._calc_coolant_temp',
     'dassh.region_unrodded:MultiNodeHomogeneous._calc_coolant_temp',
+    'dassh.core:calculate_min_dz', 'dassh.core:Core._flow_model', 'dassh.core:Core._noflow_model',
+    'dassh.core:Core._duct_average_model',
 ]
-ASSUMPTIONS = ['min() over symbolic step limits is modelled by its defining property (result <= every argument)']
+ASSUMPTIONS = ['min() over symbolic step limits is modelled by its defining property (result <= every argument)',
+               'gap coolant: topology of really loaded cores; the geometric tables are atoms carrying the facts C09 proves '
+               '(cell widths > 0, convection constants = widths, symmetric distances > 0, conduction constants = gap '
+               'width / distance, cell flows > 0); film coefficients, heat capacity and conductivity are independent '
+               'positive atoms at the two temperatures the limit is evaluated at']
 NOT_DECIDED = ['temperature-dependent coolants over the whole inlet..outlet range: the limit is evaluated by the code at '
                'the two end temperatures only; that the extremum lies at an end needs monotone properties (assumed)']
 BOUNDED = []
@@ -163,7 +169,7 @@ def interior(S, cfg):
         for k in w:
             if k == tnames[i]:
                 continue
-            S.le(f'op.{"heating" if k in pnames else "offdiag"}[{i},{k}]', 0, w[k])
+            S.le(f'op.{"heating" if k in pnames else "offdiag"}[{i},{k}]', 0, w[k], scale=1.0)
         if cls not in rec:
             S.holds(f'limit.covers_class[{i}:{cls}]', False)
             continue
@@ -259,7 +265,7 @@ def bypass(S, cfg):
             S.eq(f'op.no_constant[b{b},{c}]', const, 0, scale=1e3)
             for k in w:
                 if k != me:
-                    S.le(f'op.offdiag[b{b},{c},{k}]', 0, w[k])
+                    S.le(f'op.offdiag[b{b},{c},{k}]', 0, w[k], scale=1.0)
             if cls not in rec or len(rec[cls]) <= b:
                 S.holds(f'limit.covers_class[b{b},{c}:{cls}]', False)
                 continue
@@ -298,7 +304,7 @@ def stagnant(S, cfg):
         S.eq(f'stagnant.rowsum[{c}]', sum(w.values()), 1)
         S.eq(f'stagnant.no_constant[{c}]', const, 0, scale=1e3)
         for k in w:
-            S.le(f'stagnant.weight_nonneg[{c},{k}]', 0, w[k])
+            S.le(f'stagnant.weight_nonneg[{c},{k}]', 0, w[k], scale=1.0)
     S.eq('canary.stagnant_keeps_old', rows[0][0][names[0]], 1, canary=True)
 stagnant.cname = 'RoddedRegion._calc_coolant_byp_temp_stagnant'
 
@@ -351,7 +357,7 @@ def unrodded(S, cfg):
         S.eq(f'op.no_constant[{i}]', const, 0, scale=1e3)
         for k in w:
             if k != tn[i]:
-                S.le(f'op.{"heating" if k == "qrefl" else "offdiag"}[{i},{k}]', 0, w[k])
+                S.le(f'op.{"heating" if k == "qrefl" else "offdiag"}[{i},{k}]', 0, w[k], scale=1.0)
         s_i = (1 - w[tn[i]]) / dz
         # the self weight at every candidate limit (the limit evaluated at the inlet / outlet temperature)
         # must be >= 0:  S * candidate <= 1 ; the returned value is <= every candidate
@@ -361,6 +367,177 @@ def unrodded(S, cfg):
         S.le(f'limit.is_min[cand{kk}]', limit, cnd)
     S.eq('canary.unrodded_rowsum_without_wall', sum(rows[0][0].get(k, 0) for k in tn), 1, canary=True)
 unrodded.cname = 'region_unrodded.calculate_min_dz'
+
+
+# ---------------------------------------------------------------------------------------
+# inter-assembly gap coolant (dassh.core)
+def _gap_core(S, cfg):
+    """topology of a really loaded core (C09); geometric tables as atoms carrying the facts C09 proves:
+    cell widths > 0, convection constants = widths, centroid distances symmetric and > 0, conduction
+    constants = gap width / distance, cell flows > 0"""
+    from . import c09
+    sym = S.mode == 'sym'
+    c, kinds, hs_, d_ = c09._native_core(cfg['present'], cfg['types'])
+    if cfg.get('model'):
+        c.model = cfg['model']
+    n_sc = int(c.n_sc)
+    shape = tuple(int(x) for x in c._asm_sc_adj.shape)
+    adj = c._asm_sc_adj
+    dt = object if sym else float
+    d = S.pos('d_gap', 0.003, 0.006)
+    c.d_gap = d
+    awp = np.zeros(shape, dtype=dt)
+    for a in range(shape[0]):
+        for loc in range(shape[1]):
+            awp[a, loc] = S.pos(f'awp[{a},{loc}]', 0.005, 0.03) if adj[a, loc] > 0 else 0
+    c.gap_params['asm wp'] = awp
+    const = np.zeros((n_sc, 3), dtype=dt)
+    for i in range(n_sc):
+        rows, cols = np.where(adj == i + 1)
+        for t in range(len(rows)):
+            const[i, t] = awp[rows[t], cols[t]]
+    if c.model == 'no_flow':
+        const = const * (2 / d)                  # what _make_conv_mask stores for the no-flow model
+    c._conv_util['const'] = const
+    L = np.zeros((n_sc, 3), dtype=dt)
+    R = np.zeros((n_sc, 3), dtype=dt)
+    for i in range(n_sc):
+        for slot in range(3):
+            j = c._sc_adj[i, slot] - 1
+            if j < 0:
+                continue
+            back = [t for t in range(3) if c._sc_adj[j, t] - 1 == i][0]
+            if (j, back) < (i, slot):
+                L[i, slot] = L[j, back]
+            else:
+                L[i, slot] = S.pos(f'L[{i},{slot}]', 0.005, 0.03)
+            R[i, slot] = d / L[i, slot]
+    c.gap_params['L'] = L
+    c._Rcond = R
+    m = S.vec('mflow', n_sc, 'pos', 0.01, 0.1)
+    c._sc_mfr = m
+    c._inv_sc_mfr = 1 / m
+    c.gap_params['area frac'] = m / sum(m)
+    return c, n_sc, shape, adj, awp, const, L, R, m, d
+
+
+def gap_flow(S, cfg):
+    """flowing gap: T_new,i = T_i + dT_i is a combination of T_i, the duct temperatures it touches and its
+    neighbours with non-negative weights that sum to one, for every dz up to the limit core.calculate_min_dz
+    returns, at BOTH ends of the temperature range the limit is evaluated for"""
+    from dassh import core as dcore
+    c, n_sc, shape, adj, awp, const, L, R, m, d = _gap_core(S, cfg)
+    # coolant state at the two temperatures the limit is evaluated at
+    T_lo, T_hi = 600.0, 800.0
+    state = {}
+    for tag, T in (('lo', T_lo), ('hi', T_hi)):
+        state[T] = dict(h=S.vec(f'h_{tag}', n_sc, 'pos', 1e4, 1e5), cp=S.pos(f'cp_{tag}', 1200.0, 1300.0),
+                        k=S.pos(f'k_{tag}', 50.0, 80.0))
+
+    class _Cool:
+        temperature = T_lo
+        heat_capacity = state[T_lo]['cp']
+        thermal_conductivity = state[T_lo]['k']
+    cool = _Cool()
+    c.gap_coolant = cool
+
+    def update(T):
+        st = state[T]
+        cool.temperature = T
+        cool.heat_capacity = st['cp']
+        cool.thermal_conductivity = st['k']
+        c.coolant_gap_params['htc'] = st['h']
+    c._update_coolant_gap_params = update
+    update(T_lo)
+    # min() over the symbolic candidate limits: modelled by its defining property (result <= every argument, see
+    # ASSUMPTIONS); the candidates the code hands to np.min are recorded and each is checked against its cell
+    recorded = []
+
+    def min_rec(x, *a, **k):
+        arrs = [np.asarray(v, dtype=object if sym_mode else float).ravel() for v in (x if isinstance(x, list) else [x])]
+        recorded.extend(arrs)
+        lim = S.pos('gap_limit', 1e-4, 1e-2)
+        for arr in arrs:
+            for v in arr:
+                S.assume(lim <= v, 'min(): result <= every argument')
+        return lim
+    sym_mode = S.mode == 'sym'
+    if sym_mode:
+        with patched((dcore.np, 'min', min_rec)):
+            limit, _ = dcore.calculate_min_dz(c, T_lo, T_hi)
+    else:
+        limit, _ = dcore.calculate_min_dz(c, T_lo, T_hi)
+    S.lt('gap.limit_positive', 0, limit)
+    if sym_mode:
+        S.holds('gap.limit_has_candidates', len(recorded) >= 1 and all(len(a) == n_sc for a in recorded))
+    # candidate limit of each cell at each temperature: in order of evaluation when one array per temperature was
+    # handed to min(); a single array has to serve both temperatures
+    cand = {T_lo: recorded[0] if recorded else None, T_hi: recorded[-1] if recorded else None}
+    Tg = S.vec('Tgap', n_sc, 'pos', 600.0, 900.0)
+    t_duct = S.vec('Tduct', shape, 'pos', 600.0, 900.0)
+    dz = S.pos('dz', 0.001, 0.02)
+    block = S.names('Tgap', n_sc) + S.names('Tduct', shape)
+    for tag, T in (('lo', T_lo), ('hi', T_hi)):
+        update(T)
+        st = state[T]
+        c.coolant_gap_temp = Tg.copy()
+        dT = c._flow_model(dz, t_duct)
+        for i in range(n_sc):
+            Si = (st['h'][i] * (const[i, 0] + const[i, 1] + const[i, 2])
+                  + st['k'] * (R[i, 0] + R[i, 1] + R[i, 2])) / (m[i] * st['cp'])
+            want = Tg[i] * (1 - dz * Si)
+            rows, cols = np.where(adj == i + 1)
+            for t in range(len(rows)):
+                want = want + dz * st['h'][i] * const[i, t] / (m[i] * st['cp']) * t_duct[rows[t], cols[t]]
+            for slot in range(3):
+                j = c._sc_adj[i, slot] - 1
+                if j >= 0:
+                    want = want + dz * st['k'] * R[i, slot] / (m[i] * st['cp']) * Tg[j]
+            # the update is exactly this combination (weights visibly >= 0 except the self weight 1 - dz S_i) ...
+            S.eq(f'gap.op.combination[{tag},{i}]', Tg[i] + dT[i], want, block=block)
+            # ... and the self weight stays >= 0 for every dz up to the limit
+            S.le(f'gap.op.diag_at_limit[{tag},{i}]', Si * (cand[T][i] if sym_mode else limit), 1, scale=1e3)
+    S.le('canary.gap_limit_twice_as_large', 2 * (cand[T_hi][0] if sym_mode else limit)
+         * ((state[T_hi]['h'][0] * (const[0, 0] + const[0, 1] + const[0, 2])
+             + state[T_hi]['k'] * (R[0, 0] + R[0, 1] + R[0, 2])) / (m[0] * state[T_hi]['cp'])), 1, canary=True)
+
+
+gap_flow.cname = 'core.calculate_min_dz/_flow_model'
+gap_flow.run_kw = dict(max_paths=400, budget_ms=8000, check_div=False)
+
+
+def gap_static(S, cfg):
+    """no-flow and duct-average gap models: the new gap temperature is a convex combination of the adjacent duct-wall
+    temperatures (and, no-flow, the neighbouring gap temperatures)"""
+    model = cfg['model']
+    c, n_sc, shape, adj, awp, const, L, R, m, d = _gap_core(S, cfg)
+    Tg = S.vec('Tgap', n_sc, 'pos', 600.0, 900.0)
+    t_duct = S.vec('Tduct', shape, 'pos', 600.0, 900.0)
+    c.coolant_gap_temp = Tg.copy()
+    block = S.names('Tgap', n_sc) + S.names('Tduct', shape)
+    if model == 'no_flow':
+        new = c._noflow_model(t_duct)
+    else:
+        new = c._duct_average_model(t_duct)
+    for i in range(n_sc):
+        rows, cols = np.where(adj == i + 1)
+        if model == 'no_flow':
+            wsum = sum(const[i, t] for t in range(len(rows))) + sum(R[i, s_] for s_ in range(3))
+            want = sum(const[i, t] * t_duct[rows[t], cols[t]] for t in range(len(rows)))
+            for slot in range(3):
+                j = c._sc_adj[i, slot] - 1
+                if j >= 0:
+                    want = want + R[i, slot] * Tg[j]
+            S.eq(f'gap.static.convex_combination[{i}]', new[i] * wsum, want, block=block)
+            S.lt(f'gap.static.weights_positive[{i}]', 0, wsum)
+        else:
+            S.eq(f'gap.static.mean_of_adjacent_ducts[{i}]', new[i] * len(rows),
+                 sum(t_duct[rows[t], cols[t]] for t in range(len(rows))), block=block)
+    S.eq('canary.gap_static_keeps_old', new[0], Tg[0], block=block, canary=True)
+
+
+gap_static.cname = 'Core._noflow_model/_duct_average_model'
+gap_static.run_kw = dict(max_paths=400, budget_ms=8000, check_div=False)
 
 
 def configs(tier):
@@ -378,7 +555,12 @@ def configs(tier):
         out.append((unrodded, dict(model=model)))
         out.append((unrodded, dict(model=model, lowflow=True)))
         out.append((unrodded, dict(model=model, mratio=1.0)))
+    for present, types in (((1,), 'c'), ((1, 1, 1), 'acU'), ((1, 1, 0, 1, 0, 0, 1), 'acab')):
+        out.append((gap_flow, dict(present=present, types=types)))
+    out.append((gap_static, dict(present=(1, 1, 1), types='acU', model='no_flow')))
+    out.append((gap_static, dict(present=(1, 1, 1), types='acU', model='duct_average')))
     if tier == 'thorough':
+        out.append((gap_flow, dict(present=(1,) * 7, types='abUcabU')))
         out.append((interior, dict(n_ring=5)))
         out.append((interior, dict(n_ring=6, conv_approx=True)))
         out.append((bypass, dict(n_ring=4, n_duct=3, conv_approx=True)))
